@@ -202,6 +202,12 @@ def render(spec, postponed=True):
     for c in spec["classes"]:
         emit(c["name"])
     spec["emitted"] = emitted
+    if spec.get("enum_nested") and not spec.get("enum_module"):
+        # the enum is defined inside another class: it is reached through that class only
+        import re
+        start = lines.index("class Color(Enum):")
+        head = lines[:start] + ["class Palette:", "    class Color(Enum):", "        R = 'r'", "        G = 'g'", "        B = 'b'", "", ""]
+        lines = head + [re.sub(r"\bColor\b", "Palette.Color", l) for l in lines[start + 6:]]
     return "\n".join(lines)
 
 
